@@ -147,6 +147,17 @@ impl Property for C14 {
                     return rep;
                 }
             };
+            // text-side surface: a (merged) token must cover exactly text[begin..end]
+            for m in mw.iter() {
+                let (b, e) = (m.begin(), m.end());
+                if b <= e && e <= text.len() && text.is_char_boundary(b) && text.is_char_boundary(e) {
+                    let ok = guarded(|| &*m.surface() == &text[b..e]);
+                    if ok != Ok(true) {
+                        rep.fail("merged-text-surface", format!("text {:?}: token {}..{} of the rewritten path reports the surface {:?} instead of {:?}", text, b, e, guarded(|| m.surface().to_string()), &text[b..e]));
+                        return rep;
+                    }
+                }
+            }
             let (tw, to) = (toks(&mw), toks(&mo));
             let bo: BTreeSet<usize> = to.iter().flat_map(|t| [t.b, t.e]).collect();
             for t in &tw {
